@@ -13,7 +13,9 @@ import H2V.Lemmas.ConnResetPDrop
                                implicit reset;
     * `rank st`              — 0: not reset; 1: an RST_STREAM is owed (queued, or implicit reset scheduled);
                                2: reset, nothing owed (sent, or never owed);
-    * `KeysBelow store`      — every slab key in use is below `nextKey` (keys are never handed out twice).
+    * `KeysBelow store`      — every slab key in use is below `nextKey` (keys are never handed out twice);
+    * `Evolves SRelAny RInv a b` — store `b` is reached from store `a` by steps under which `RInv` is kept
+                               and `rank` never decreases (what every operation of the model satisfies).
 -/
 namespace H2V.Props.C17
 open H2V H2V.Model H2V.Model.Conn H2V.Lemmas.ConnResetP
@@ -142,7 +144,7 @@ example : ((run {} [.sendRequest false [] false none, .cloneStreamRef 0, .pollCo
     queued: its `rank` is 2 — by `rst_owed_at_most_once` it never owes one again. -/
 theorem rst_frames_come_from_owing_streams (fuel : Nat) (s : Streams) (maxLen : Nat) (s' : Streams) (sid : Nat) (code : Reason)
     (hkb : KeysBelow s.store) (h : Streams.popFrame fuel s maxLen = (s', some (.reset sid code))) :
-    ∃ s1 : Store, Evolves SRel RInv s.store s1 ∧ Evolves SRel RInv s1 s'.store ∧
+    ∃ s1 : Store, Evolves SRelAny RInv s.store s1 ∧ Evolves SRelAny RInv s1 s'.store ∧
       ∃ k st1, s1.get? k = some st1 ∧ st1.id = sid ∧
         ((∃ rest, st1.pendingSend = .reset code :: rest) ∨
           (st1.pendingSend = [] ∧ st1.state.getScheduledReset = some code)) ∧
